@@ -77,7 +77,15 @@ def ob_decision(h):
     us = [_utility_record(h, i) for i in range(k)]
     hu_t, cu_t = h.real("HU_T_min"), h.real("CU_T_max")
     h.stub(dp, "get_value", lambda v: v)      # numbers are already plain (C16.get_value proves the unwrapping)
+    given = [(u.t_supply, u.t_target, u.dt_cont) for u in us]
     out, add_hu, add_cu = dp._complete_utility_data(us, cfg(), hu_t, cu_t)
+    # COMPLETION: what the user supplied is kept as supplied (whatever its value, zero included); only an isothermal record gets a glide
+    for u, (ts0, tt0, dt0) in zip(us, given):
+        h.check("supplied_supply_temperature_kept", h.eq(u.t_supply, ts0))
+        h.check("supplied_contribution_kept", h.eq(u.dt_cont, dt0))
+        h.check("supplied_target_temperature_kept", Implies(Not(h.eq(tt0, ts0)), h.eq(u.t_target, tt0)))
+        glide = -DT_PC if u.type == "Hot" else DT_PC
+        h.check("isothermal_record_gets_the_phase_change_glide", Implies(h.eq(tt0, ts0), h.eq(u.t_target, ts0 + glide)))
     suff_hot, suff_cold, band = [], [], []
     for u in us:
         lo, hi = smin(u.t_supply, u.t_target), smax(u.t_supply, u.t_target)
